@@ -37,6 +37,17 @@ CHECKS = {
         note="masters hold strobed requests (Wishbone classic); data identity by tags (master id in dat_w, slave id in "
              "dat_r); bounds 3x3; known finding: registered decode + zero-latency slave (listed)",
         ref="4 (C06)"),
+    "C07": dict(
+        technique="TLA+ flat-memory contract (FlatMemContract) model-checked by TLC (safety + liveness Served) on the "
+                  "closed-loop product of a nondeterministic Wishbone master with the transition graph of the real "
+                  "adapter + SRAM netlists (memory contents are part of the explored state)",
+        text="every history of reads/writes (all addresses, byte selects incl. none, two byte values, gaps) is explored "
+             "against every reachable state - memory, cache data/tag/dirty contents included - of SRAM (rw/ro), "
+             "DownConverter, UpConverter, Converter chains, Remapper (origin/mask and region lists), Wishbone2CSR "
+             "(+/- register) in front of csr_bus.SRAM and the write-back Cache (line = / > / < master word, evictions).",
+        note="memories of 2-8 words, bytes from a 2-value alphabet, classic cycles only (burst cycles not yet); every "
+             "chain ends in the repository's own SRAM; known finding: Cache power-up tags hit (listed)",
+        ref="4 (C07)"),
     "C11": dict(
         technique="TLA+ contract (WbIcContract time-out clauses, ErrCounterGraph) model-checked by TLC on the closed-loop "
                   "product of masters and FAULTY slaves (silent forever / late / answering in the expiry cycle) with the "
